@@ -3,12 +3,10 @@ import TaRs.Lemmas.Core.FastStochastic
 import TaRs.Gen.FastStochastic
 import TaRs.Lemmas.Minimum
 import TaRs.Lemmas.Maximum
+import TaRs.Lemmas.Total.FastStochastic
 namespace TaRs.Gen.FastStochastic
 open TaRs TaRs.Rs
 variable {F : Type} [Scalar F]
-
-omit [Scalar F] in
-theorem WF.pos {s : FastStochastic F} (h : WF s) : 0 < s.period := h.pmin ▸ h.min.pos
 
 /-- scalar path: the same input feeds the lowest-low and highest-high windows (minimum first);
     output `50` when `lowest == highest`, else `(x − lo) / (hi − lo) * 100` -/
@@ -44,17 +42,5 @@ theorem nextBar_none_iff (s : FastStochastic F) (b : Bar F) :
   unfold nextBar
   try simp only [gen_helper]
   cases h1 : s.minimum.next b.low <;> cases h2 : s.maximum.next b.high <;> simp [h1]
-
-theorem next_total (s : FastStochastic F) (x : F) (h : WF s) :
-    ∃ r, s.next x = some r ∧ WF r.1 ∧ r.1.period = s.period := by
-  obtain ⟨⟨mn', lo⟩, e1, w1, p1⟩ := Minimum.next_total s.minimum x h.min
-  obtain ⟨⟨mx', hi⟩, e2, w2, p2⟩ := Maximum.next_total s.maximum x h.max
-  exact ⟨_, next_wiring s x mn' lo mx' hi e1 e2, ⟨w1, w2, p1.trans h.pmin, p2.trans h.pmax⟩, rfl⟩
-
-theorem nextBar_total (s : FastStochastic F) (b : Bar F) (h : WF s) :
-    ∃ r, s.nextBar b = some r ∧ WF r.1 ∧ r.1.period = s.period := by
-  obtain ⟨⟨mn', lo⟩, e1, w1, p1⟩ := Minimum.next_total s.minimum b.low h.min
-  obtain ⟨⟨mx', hi⟩, e2, w2, p2⟩ := Maximum.next_total s.maximum b.high h.max
-  exact ⟨_, nextBar_wiring s b mn' lo mx' hi e1 e2, ⟨w1, w2, p1.trans h.pmin, p2.trans h.pmax⟩, rfl⟩
 
 end TaRs.Gen.FastStochastic
